@@ -24,7 +24,7 @@ RX_WEIGHTS = {
     "lc_h": 4, "lc_h+r": 4, "lc_c": 1, "j3pi_h": 3, "j3pi_h+r": 3, "ksp_h": 2, "ksp_h+r": 2,
     "ppg_h": 2, "ppg_h+r": 2, "ppg_c": 1, "psi4_h": 1, "d3pi_h": 2, "d3pi_h+r": 2,
     "kkpi_h": 2, "kkpi_h+r": 2, "dkpp_h": 2, "dkpp_h+r": 2, "etac_c": 2, "etac_c+r": 1,
-    "lc_h#1": 1, "lc_h#1+r": 1, "ksp_h#1": 1, "kkpi_h#1": 1, "kkpi_h#1+r": 1, "gpp_c#1": 1, "etac_c#1+r": 1,
+    "lc_h#1": 2, "lc_h#1+r": 1, "ksp_h#1": 2, "kkpi_h#1": 2, "kkpi_h#1+r": 1, "gpp_c#1": 2, "etac_c#1+r": 1,
     "gpp_h@x": 1, "gpp_h@x+r": 1, "lc_h@x": 1, "lc_h@x+r": 1, "d3pi_h@x": 1, "d3pi_h@x+r": 1,
 }
 
@@ -49,7 +49,7 @@ def _final_ids(tag: str) -> list[int]:
 
 def gen_config_op(rng, slot: int, tag: str, dyn=None, sel_range: int = 64) -> dict:
     kind = rng.choices(["align", "scalar", "stable", "helcoup", "naming", "assign", "permutate", "register", "align_inplace"],
-                       weights=[5, 3, 4, 2, 2, 5, 1, 1, 1 if tag.endswith("+r") else 0])[0]
+                       weights=[5, 3, 4, 2, 2, 5, 1, 3 if "#" in tag else 1, 1 if tag.endswith("+r") else 0])[0]
     op = {"op": kind, "b": slot}
     if kind == "align":
         if tag.endswith("+r"):
